@@ -178,7 +178,17 @@ func mutants(in *chain.Inst, base *pb.Transaction, pre *world.PreExecResult) []m
 			return
 		}
 		world.SignTx(t, "B", nil)
-		out = append(out, mutant{name: name, tx: t, free: strings.HasSuffix(name, ".dropped") && strings.HasPrefix(name, "rset[") || strings.HasPrefix(name, "rset[") && strings.Contains(name, ".replaced_by_copy_of[")})
+		free := strings.HasSuffix(name, ".dropped") && strings.HasPrefix(name, "rset[") || strings.HasPrefix(name, "rset[") && strings.Contains(name, ".replaced_by_copy_of[")
+		// a request without effects (it only reads or burns resources) may be dropped or listed
+		// again: what is left still declares exactly what its own re-execution produces
+		if strings.HasPrefix(name, "request[") && (strings.HasSuffix(name, ".dropped") || strings.HasSuffix(name, ".listed_twice")) {
+			var k int
+			fmt.Sscanf(name, "request[%d]", &k)
+			if k < len(base.ContractRequests) && effectFree(string(base.ContractRequests[k].Args["prog"])) {
+				free = true
+			}
+		}
+		out = append(out, mutant{name: name, tx: t, free: free})
 	}
 	kvA := uni.Tx("kvA")
 	other := uni.Tx("tSplit")
@@ -391,6 +401,18 @@ func mutants(in *chain.Inst, base *pb.Transaction, pre *world.PreExecResult) []m
 			}
 			return false
 		})
+		for _, fh := range []int64{-1, 1 << 40} {
+			fh := fh
+			add(fmt.Sprintf("transfer_output[%d].frozen(%d)", k, fh), func(t *pb.Transaction) bool {
+				for _, o := range t.TxOutputs {
+					if bytes.Equal(o.ToAddr, uo.ToAddr) && bytes.Equal(o.Amount, uo.Amount) {
+						o.FrozenHeight = fh // the payee is "paid" with an output it can never (or not yet) spend
+						return true
+					}
+				}
+				return false
+			})
+		}
 		add(fmt.Sprintf("transfer_output[%d].kept_by_sender", k), func(t *pb.Transaction) bool {
 			for _, o := range t.TxOutputs {
 				if bytes.Equal(o.ToAddr, uo.ToAddr) && bytes.Equal(o.Amount, uo.Amount) {
@@ -402,6 +424,50 @@ func mutants(in *chain.Inst, base *pb.Transaction, pre *world.PreExecResult) []m
 		})
 	}
 	return out
+}
+
+// sameEffects: two pre-executions declare the same reads, writes and contract-originated transfers.
+func sameEffects(a, b *world.PreExecResult) bool {
+	if len(a.Inputs) != len(b.Inputs) || len(a.Outputs) != len(b.Outputs) || len(a.UtxoOutputs) != len(b.UtxoOutputs) || len(a.UtxoInputs) != len(b.UtxoInputs) {
+		return false
+	}
+	for k := range a.Inputs {
+		if !proto.Equal(a.Inputs[k], b.Inputs[k]) {
+			return false
+		}
+	}
+	for k := range a.Outputs {
+		if !proto.Equal(a.Outputs[k], b.Outputs[k]) {
+			return false
+		}
+	}
+	for k := range a.UtxoOutputs {
+		if !proto.Equal(a.UtxoOutputs[k], b.UtxoOutputs[k]) {
+			return false
+		}
+	}
+	for k := range a.UtxoInputs {
+		if !proto.Equal(a.UtxoInputs[k], b.UtxoInputs[k]) {
+			return false
+		}
+	}
+	return true
+}
+
+// effectFree reports that a harness program writes nothing and transfers nothing.
+func effectFree(prog string) bool {
+	for _, st := range strings.Split(prog, ";") {
+		f := strings.Fields(st)
+		if len(f) == 0 {
+			continue
+		}
+		switch f[0] {
+		case "get", "sel", "cpu", "mem", "disk", "gas":
+		default:
+			return false
+		}
+	}
+	return true
 }
 
 type stats struct {
@@ -428,7 +494,12 @@ func runBase(c Case, only string) (viol []core.Violation, st stats) {
 	st.programs = 1
 	before := chain.Observe(in, w)
 	addrB := world.Addr("B")
-	pre, err := w.PreExec([]*protos.InvokeRequest{world.VKVRequest(c.Program)}, addrB, []string{addrB})
+	// "a||b": one transaction with several requests
+	var reqs []*protos.InvokeRequest
+	for _, p := range strings.Split(c.Program, "||") {
+		reqs = append(reqs, world.VKVRequest(p))
+	}
+	pre, err := w.PreExec(reqs, addrB, []string{addrB})
 	if err != nil {
 		st.preexecFailed = 1
 		// a failed call changes nothing
@@ -454,6 +525,14 @@ func runBase(c Case, only string) (viol []core.Violation, st stats) {
 		}
 		st.mutants++
 		ok, verr := w.State.VerifyTx(world.CloneTx(m.tx))
+		if strings.HasPrefix(m.name, "request[") && !m.free && !strings.HasSuffix(m.name, ".limit_below_use") {
+			// a changed request list is a different transaction: it has to be refused exactly when
+			// what it declares is no longer what executing ITS requests produces (or costs more
+			// than it pays); decided by pre-executing the changed list on the same state
+			if pre2, err2 := w.PreExec(m.tx.ContractRequests, addrB, []string{addrB}); err2 == nil && sameEffects(pre, pre2) && pre2.GasUsed <= pre.GasUsed {
+				m.free = true
+			}
+		}
 		if m.free {
 			if ok && verr == nil {
 				st.freeAccepted++
@@ -617,6 +696,35 @@ func run(tier core.Tier) *core.Report {
 			cases = append(cases, Case{Prior: p.Name, Program: pr})
 		}
 	}
+	// several requests in one transaction: resource use that is converted to gas by
+	// rounding (cpu_rate 1000, mem_rate 1000000), flat fees, effects
+	reqAlphabet := []string{"cpu 1", "cpu 1500", "cpu 700", "cpu 1000", "mem 1", "mem 1500000", "disk 3", "gas 2", "put k1 x", "get k1;put k2 y", "xfer C 5"}
+	maxReq := 2
+	if tier == core.Thorough {
+		maxReq = 3
+	}
+	var multi []string
+	var recq func(prefix []string)
+	recq = func(prefix []string) {
+		if len(prefix) >= 2 {
+			multi = append(multi, strings.Join(prefix, "||"))
+		}
+		if len(prefix) == maxReq {
+			return
+		}
+		for _, r := range reqAlphabet {
+			recq(append(append([]string{}, prefix...), r))
+		}
+	}
+	recq(nil)
+	for _, r := range reqAlphabet { // single requests of the new statements as well
+		multi = append(multi, r)
+	}
+	for _, p := range priors[:1] {
+		for _, pr := range multi {
+			cases = append(cases, Case{Prior: p.Name, Program: pr})
+		}
+	}
 	var mu sync.Mutex
 	var tot stats
 	kinds := map[string]bool{}
@@ -667,7 +775,7 @@ func run(tier core.Tier) *core.Report {
 	rep.Set("base_transactions_accepted", tot.accepted)
 	rep.Set("base_transactions_committed", tot.committed)
 	rep.Set("mutants_judged", tot.mutants-tot.freeAccepted-tot.freeRefused)
-	rep.Set("outside_statement_mutants", fmt.Sprintf("declared read dropped / overwritten by a copy of another declared read: %d accepted, %d refused (recorded, not judged: the declared writes may still be what re-execution over the remaining reads produces)", tot.freeAccepted, tot.freeRefused))
+	rep.Set("outside_statement_mutants", fmt.Sprintf("declared read dropped / overwritten by a copy of another declared read, request without effects dropped / listed again, changed request list that pre-executes to the same effects at no higher cost: %d accepted, %d refused (recorded, not judged: what is left still declares what its own re-execution produces)", tot.freeAccepted, tot.freeRefused))
 	rep.Set("bound", fmt.Sprintf("programs of length <= %d over %d statements (get/put/del/select/transfer/nested call/fail) x %d prior states; every single mutation of read set versions, write set, transient entries, request args and limits, fee, transfer outputs", n, len(alphabet), len(priors)))
 	rep.Set("exhaustive", !stopped)
 	rep.Assume("the harness contract's transfer spends from the initiator, as the bridge syscall does; mutants are re-signed by the initiator (the question is whether the chain binds declared effects, not whether signatures bind content: C07)")
